@@ -114,6 +114,9 @@ var reservedHeaders = map[string]struct{}{
 	"trailer":           {},
 	"transfer-encoding": {},
 	"upgrade":           {},
+	// the protocol's own response headers: never taken from application metadata
+	"x-grpc-status":  {},
+	"x-grpc-details": {},
 }
 
 func toHeaders(md metadata.MD, h http.Header, prefix string) {
